@@ -80,6 +80,31 @@ def build_harness(name, pkg_rel, virtual_pkgs=None, inpkg=None, race=False, tags
     return out
 
 
+_CHILDREN = []
+
+
+def die_with_parent():
+    """preexec_fn: the child gets SIGKILL when the check process dies, however it dies (an orphaned harness process keeps
+    its listening ports and its scratch database)."""
+    try:
+        import ctypes, signal
+        ctypes.CDLL("libc.so.6", use_errno=True).prctl(1, signal.SIGKILL)   # PR_SET_PDEATHSIG
+    except Exception:
+        pass
+
+
+def _kill_children():
+    for p in _CHILDREN:
+        try:
+            if p.poll() is None:
+                p.kill()
+        except Exception:
+            pass
+
+
+atexit.register(_kill_children)
+
+
 class FileProc:
     """A harness process whose stdout / stderr go to FILES: several such processes are started together and waited for one
     after the other, and a process that prints a lot (the code under test prints with fmt.Println in places) must not block
@@ -89,7 +114,8 @@ class FileProc:
         self._so, self._se = os.path.join(cwd, "stdout_%s.txt" % tag), os.path.join(cwd, "stderr_%s.txt" % tag)
         # stdout is not kept at all: a frame announcing 4 GB makes wire.discardInput print 400 000 lines
         self._fo, self._fe = open(os.devnull, "w"), open(self._se, "w")
-        self.p = subprocess.Popen(args, env=env, cwd=cwd, stdout=self._fo, stderr=self._fe, text=True)
+        self.p = subprocess.Popen(args, env=env, cwd=cwd, stdout=self._fo, stderr=self._fe, text=True, preexec_fn=die_with_parent)
+        _CHILDREN.append(self.p)   # no harness process outlives the check (an orphan keeps its listening ports)
 
     def _tail(self, path, n=200000):
         try:
@@ -127,7 +153,7 @@ def run_harness(binary, env_extra, timeout=3600, cwd=None):
     env = go_env()
     env.update({k: str(v) for k, v in env_extra.items()})
     p = subprocess.run([binary, "-test.run", "^TestHarness$", "-test.timeout", "0"], env=env, cwd=cwd or sub("run"),
-                       stdout=subprocess.DEVNULL, stderr=subprocess.PIPE, text=True, timeout=timeout)
+                       stdout=subprocess.DEVNULL, stderr=subprocess.PIPE, text=True, timeout=timeout, preexec_fn=die_with_parent)
     p.stdout = ""   # not kept (the code under test prints freely); diagnostics come on stderr
     return p
 
@@ -211,12 +237,12 @@ def run_tlc(module, cfg_path, workers=None, timeout=1800, simulate=None, depth=N
     try:
         if out_file:
             with open(out_file, "w") as fo:
-                p = subprocess.run(cmd, cwd=d, stdout=fo, stderr=subprocess.STDOUT, timeout=timeout)
+                p = subprocess.run(cmd, cwd=d, stdout=fo, stderr=subprocess.STDOUT, timeout=timeout, preexec_fn=die_with_parent)
             with open(out_file) as fi:
                 # only the non-JSON lines are kept in memory
                 out = "".join(l for l in fi if not l.startswith('"'))
         else:
-            p = subprocess.run(cmd, cwd=d, capture_output=True, text=True, timeout=timeout)
+            p = subprocess.run(cmd, cwd=d, capture_output=True, text=True, timeout=timeout, preexec_fn=die_with_parent)
             out = p.stdout + p.stderr
     except subprocess.TimeoutExpired:
         shutil.rmtree(d, ignore_errors=True)
